@@ -24,6 +24,7 @@ from fractions import Fraction
 from ..algebra import RF, Unsupported, const, sym, derivative, substitute, atom_rf, KEY2RF, fn
 from ..region import Region, RegionLifter, Vec, Mat, Obj, R, INF, Raised
 from .control import loc
+from ..model import norm_src, AnalysisError
 
 BLOCK_NOT_CLAIMED = {
     "L2_05": "closed-form prox (prox_block_2_05, trigonometric): global optimality of closed "
@@ -1138,3 +1139,47 @@ def r_proxvec(A, ctx, scope, rule="R-PROXVEC"):
                 except (Unsupported, ZeroDivisionError) as e:
                     ctx.ob(rule, key, None, detail=f"not lifted: {e}")
     ctx.floor(rule, n, scope.get("floor", 12))
+
+
+# ------------------------------------------------------------------- rounding hazards in closed forms
+def r_rounding(A, ctx, scope, rule="R-ROUNDING"):
+    ctx.rule(rule, "closed-form prox helpers: no square root is taken of a radicand that cancels to "
+             "exactly zero on a region the helper itself visits (bracket end points, thresholds): the "
+             "floating-point value of such a radicand has a random sign, the root is NaN and every "
+             "later comparison is False (clip with max(., 0))")
+    prog = A.prog
+    m = prog.modules.get("skglm.utils.prox_funcs")
+    if m is None:
+        raise AnalysisError("skglm.utils.prox_funcs missing")
+    n = 0
+    cases = [("prox_log_sum", [("x", 1.7), ("alpha", 6.0), ("eps", 0.05)]),
+             ("prox_log_sum", [("x", 0.4), ("alpha", 0.9), ("eps", 0.3)]),
+             ("prox_log_sum", [("x", 3.0), ("alpha", 0.2), ("eps", 0.9)]),
+             ("prox_SCAD", [("value", 1.8), ("stepsize", 0.5), ("alpha", 1.0), ("gamma", 3.0)]),
+             ("prox_MCP", [("value", 0.7), ("stepsize", 0.5), ("alpha", 1.0), ("gamma", 3.0)])]
+    for fname, args in cases:
+        f = m.functions.get(fname)
+        if f is None:
+            raise AnalysisError(f"prox helper {fname} missing")
+        key = f"{f.fq}::{','.join(f'{k}={v}' for k, v in args)}"
+        try:
+            rg = Region({k: v for k, v in args})
+            L = RegionLifter(prog, rg, max_steps=60000)
+            try:
+                L.call_function(f, [sym(k) for k, _ in args])
+            except Unsupported as e:
+                # a bisection is followed until its iterates are too close for the witness to
+                # separate them: everything lifted up to there still counts
+                if "region boundary" not in str(e):
+                    raise
+            n += 1
+            hz = L.hazards
+            ctx.ob(rule, key, not hz,
+                   what=(f"{hz[0][0].name}: `{norm_src(hz[0][1])[:60]}`: {hz[0][2]} (reached from {fname} with "
+                         f"{dict(args)})") if hz else "", loc=loc(hz[0][0], hz[0][1]) if hz else None)
+        except Raised as e:
+            n += 1
+            ctx.ob(rule, key, False, what=f"{fname} raises: {e}", loc=loc(f, f.node))
+        except (Unsupported, ZeroDivisionError) as e:
+            ctx.ob(rule, key, None, detail=f"not lifted: {e}")
+    ctx.floor(rule, n, scope.get("floor", 4))
